@@ -54,12 +54,87 @@ def per_case(u, c, tp, val, kw, out, violate):
         settings.serialization.exclude_defaults = False
 
 
+GENERIC_SRC = '''
+from dataclasses import dataclass
+from typing import Generic, List, NewType, Optional, TypeVar
+from apischema import serialized, serializer
+
+T = TypeVar("T")
+
+
+@dataclass
+class Parent:
+    p: int
+
+
+@dataclass
+class Child(Parent):
+    c: int = 0
+
+
+class Stamp:
+    def __init__(self, n):
+        self.n = n
+
+
+@serializer
+def stamp_to_int(s: Stamp) -> int:
+    return s.n
+
+
+@dataclass
+class Page(Generic[T]):
+    items: List[T]
+
+    @serialized
+    def first(self) -> Optional[T]:
+        return self.items[0] if self.items else None
+
+    @serialized
+    def again(self) -> List[T]:
+        return list(self.items)
+'''
+
+
+def generic_scenarios(rep: common.Report) -> int:
+    """Beyond the universe (its encoding has no generic classes): a Generic dataclass whose serialized methods
+    mention the type variable; what serialize emits for Page[X] must validate against serialization_schema(Page[X])."""
+    import sys
+    import types
+
+    import jsonschema
+    from apischema import serialize
+    from apischema.json_schema import serialization_schema
+
+    mod = types.ModuleType("verifgeneric")
+    sys.modules["verifgeneric"] = mod
+    exec(compile(GENERIC_SRC, "<verifgeneric>", "exec"), mod.__dict__)
+    n = 0
+    for label, tp, val in (("Page[int]", mod.Page[int], mod.Page([1, 2])),
+                           ("Page[Parent] holding Child instances", mod.Page[mod.Parent], mod.Page([mod.Child(1, 2), mod.Parent(3)])),
+                           ("Page[Stamp] (a converted class)", mod.Page[mod.Stamp], mod.Page([mod.Stamp(5)])),
+                           ("Page[Parent], empty", mod.Page[mod.Parent], mod.Page([]))):
+        n += 1
+        try:
+            schema = serialization_schema(tp)
+            data = serialize(tp, val)
+        except Exception as exc:
+            rep.violation(f"[schema-error] {label}: {type(exc).__name__}: {exc}", {"type": label})
+            continue
+        errs = [e.message[:150] for e in jsonschema.Draft202012Validator(schema).iter_errors(data)]
+        if errs:
+            rep.violation(f"[schema-rejects] {label}: serialize gives {data} which serialization_schema rejects: {errs[:2]}",
+                          {"type": label, "schema": schema, "serialized": data})
+    return n
+
+
 def main() -> int:
     rep = common.Report("C07", "model_checking")
     rep.assumptions = ["jsonschema (Draft 2020-12) is the independent JSON Schema semantics",
                        "exclude_defaults / exclude_none are set as global settings for both the schema and serialize",
                        "no field is dropped by unset-tracking (universe classes are not with_fields_set)"]
     engine_ser.run("C07", rep, per_case=per_case)
+    rep.set("generic_class_scenarios", generic_scenarios(rep))
     return rep.finish()
 
 
